@@ -5,6 +5,7 @@
 import math
 from typing import Any, Callable, Optional, Tuple
 
+import torch
 from torch import Tensor
 
 from .._internal_utils import generate__all__
@@ -71,7 +72,10 @@ def rms(
     eps: float = 0.0,
 ) -> Tensor:
     """Compute the RMS :math:`\\sqrt{\\mathrm{mean}(x^2) + \\epsilon}` of a tensor."""
-    mean = x.float().pow(2).mean(dims, keepdim=keepdim)
+    # (at least float32 for the reduction; a float64 input is not narrowed)
+    mean = x.to(torch.promote_types(x.dtype, torch.float32)).pow(2).mean(
+        dims, keepdim=keepdim
+    )
     if eps:
         mean = mean + eps
     return mean.sqrt().to(x.dtype)
